@@ -29,3 +29,5 @@ def run(prog, rep):
     from ..rules import r_close as _rc2
     _rc2.run_hid_owner(prog, rep)
     r_codec.run_time_codec(prog, rep)
+    _rk2.run_setter_verbatim(prog, rep, classes='all', floor=60)
+    _rk2.run_store_verbatim(prog, rep)
